@@ -29,9 +29,21 @@ def is_transparent(term):
     return False
 
 
+_PRIM = "(?:bool|char|u8|u16|u32|u64|u128|usize|i8|i16|i32|i64|i128|isize)"
+_LOSSLESS = __import__("re").compile(r"^<(%s) as core::convert::From<%s>>::from$" % (_PRIM, _PRIM))
+
+
+def lossless_cast(t):
+    """`u64::from(x)` / `x.into()` between primitive integers (and from bool) is the cast `x as u64`: returns the target type."""
+    m = _LOSSLESS.match(into_to_from(t) or "")
+    return m.group(1) if m else None
+
+
 def into_to_from(t):
     """`<A as Into<B>>::into` is the blanket impl; name the `From` impl it forwards to."""
     ck = t.ckey or "indirect"
+    if ck == "core::mem::take" and (t.gargs or "").startswith("[core::option::Option<"):
+        return "core::option::Option::take"      # mem::take(&mut opt) is opt.take()
     if ck == "<T as core::convert::Into<U>>::into" and t.gargs:
         parts = split_gargs(t.gargs)
         if len(parts) == 2:
@@ -140,6 +152,9 @@ class Flow:
             args = tuple(self.origin(a, depth, seen) for a in t.args)
             if is_transparent(t) and args:
                 return args[0]
+            lc = lossless_cast(t)
+            if lc and len(args) == 1:
+                return ("cast", args[0], lc)
             return ("call", into_to_from(t), args, bb)
         rv = d.rv
         r = rv.rv
